@@ -29,24 +29,36 @@ from bounded.C02 import Fail, _fw, _impl_name, _site, crafted_inputs, decode_inp
 
 BOUNDS = (
     "Types: the 69 implementation modules of the C02 model (OPT has no text parser: text totality only).  Values: "
-    "the C02 one-factor boundary enumeration with ALL 256 single octets in every character-string, quoted and TXT "
-    "position in both tiers (quick: types sharing both text methods with an earlier type, name labels outside 11 "
-    "designated types + gateway/server-list names, opaque hex/base64 fields and 8-bit integers use 34/50 "
-    "representatives; thorough: all 256 everywhere), then field pairs and seeded random records (quick 10, thorough 600 per type).  "
-    "Each value is rendered with the lossless styles {default, chunk sizes 0/1/3/1000 for hex and base64, TAB "
-    "separators, txt_is_utf8} (truncate_crypto, omit_final_dot and idna_codec discard or reinterpret information and "
-    "are excluded), re-parsed and compared (== and canonical digest), and additionally parsed from an independent "
-    "RFC 1035 spelling (everything outside [A-Za-z0-9_-] written \\\\DDD, upper-case hex, odd chunking, TYPEnnn, decimal "
-    "times).  Name-bearing types: 3 origins x {relativize on/off at emit} x {relativize on/off at parse} x "
-    "relativize_to, for absolute and for relative records.  RFC 3597 generic form of every value for known types and "
-    "of quick 60 / thorough 2000 payloads for unknown types.  Text totality on records accepted from wire: the C02 "
-    "structured decode inputs plus quick 60 / thorough 1000 random strings per type.  Text-accepted-encodes: each "
-    "integer token replaced by max+1, 2^bits, 10^20, signed, hex and zero-padded spellings, over-long strings and "
-    "labels, LOC altitude/size/coordinate limits, TTL unit syntax, RRSIG date limits.  Codec units: _escapify + "
-    "tokenizer + unescape_to_bytes on all 65 536 octet pairs (quick: all singles, 8 192 seeded pairs), "
-    "_escapify_unicode on 2 000 code points, hex/base64 chunking for lengths 0..70 x 9 chunk sizes, IPv4 every octet "
-    "position x 256 and IPv6 all 256 zero-run layouts x 3 fillings + seeded against the `ipaddress` module, all "
-    "65 536 type mnemonics (quick: 0..1099, every 13th, and the private-use edge).  The `cryptography` package is absent; nothing in this property needs a private key."
+    "the C02 one-factor boundary enumeration from a nominal record.  Thorough: all 256 single octets in every "
+    "character-string / quoted / TXT / opaque position and name label, all 256 values of 8-bit fields.  Quick: all "
+    "256 single octets in every character-string, quoted and TXT position of the first type of each pair of text "
+    "methods (types inheriting both from_text and to_styled_text from an earlier type use 34 representatives), all "
+    "256 single-octet labels in the first name field of 11 designated types and in gateway / server-list names "
+    "(other name fields 34), 34 / 50 representatives for opaque hex/base64 fields and 8-bit integers.  Then all "
+    "field pairs over 4 extreme values and seeded random records (quick 10, thorough 600 per type).  Values whose "
+    "RFC gives them no text form are printed but not required to re-parse: an opaque key / digest / signature / "
+    "certificate of length 0, type bitmaps with trailing zero octets or bit 0, WKS bitmaps with trailing zero "
+    "octets, APL families other than 1 and 2.  Each value is rendered with the lossless styles {default, chunk "
+    "sizes 0/1/3/1000 for hex and base64, TAB separators, txt_is_utf8} (quick: all 7 styles on the nominal and "
+    "length-boundary values of opaque/TXT fields, default + one rotating style elsewhere; truncate_crypto, "
+    "omit_final_dot and idna_codec discard or reinterpret information and are excluded), re-parsed and compared with "
+    "the library's == (every 16th also != and canonical digest), and parsed from an independent RFC 1035 spelling "
+    "(everything outside [A-Za-z0-9_-] written \\DDD, upper-case hex, odd chunking, TYPEnnn, decimal sig times).  "
+    "Name-bearing types: origins example., Sub.Example.COM. and root x {relativize on/off at emit} x {relativize "
+    "on/off at parse} x relativize_to, for absolute and for relative records (quick: 3 origins on the 18 extreme "
+    "names and the nominal record, 1 origin on a sixth of the octet sweep and every 32nd other value).  RFC 3597 "
+    "generic form of known types (quick: every 4th value) and of quick 65 / thorough 2005 payloads for unknown "
+    "types.  Text totality on records accepted from wire: the C02 structured decode inputs (quick: a third) plus "
+    "quick 60 / thorough 1000 random strings per type.  Text-accepted-encodes: each integer token replaced by "
+    "max+1, 2^bits, 10^20, signed, hex and zero-padded spellings, over-long strings and labels, LOC "
+    "altitude/size/coordinate limits, TTL unit syntax, RRSIG date limits, and ~250 per-type edge texts.  Codec "
+    "units: _escapify + tokenizer + unescape_to_bytes on all 65 536 octet pairs (quick: all singles, 8 192 seeded "
+    "pairs), _escapify_unicode on ~2 000 code points, hex/base64 chunking for lengths 0..70 x 9 chunk sizes x 2 "
+    "separators, IPv4 every octet position x 256 and IPv6 all 256 zero-run layouts x 3 fillings + 2 000 / 200 000 "
+    "seeded against the `ipaddress` module, all 65 536 type mnemonics (quick: 0..1099, every 13th, the private-use "
+    "edge).  The quick tier runs in two passes (boundaries, probes and wire-accepted records of every type first; "
+    "pairs and seeded inputs second) so that a loaded machine shortens only the seeded part.  The `cryptography` "
+    "package is absent; nothing in this property needs a private key."
 )
 
 
